@@ -17,6 +17,30 @@ CLAIMS: dict[str, dict] = {
                 "Set-level statement is checked by the spec predicate on every case; its Lean proof covers single policies (sets: see DESIGN).",
         "technique": "Lean 4 proof over a hand-written model + differential correspondence check",
     },
+    "C12": {
+        "text": "Lean theorems about an executable model of LocalRelationshipChecker (FIFO queue, seen set, visit counter, depth cut, "
+                "adversarial clock oracle, caveat registry unregistered/raises/true/false; BFS termination by a checked lexicographic "
+                "measure, no fuel) for every tuple store, rewrite-rule map, query, max_depth/max_nodes (any Python int) and clock behaviour: "
+                "soundness (answer true => derivable within max_depth from satisfied tuples, whatever the limits: c12_sound), completeness "
+                "(a run cut by neither max_nodes nor the deadline answers true for everything derivable within max_depth - full BFS "
+                "minimal-depth argument: c12_complete, c12_exact), limits fail closed and can only lose answers (c12_limits_fail_closed, "
+                "c12_limits_only_lose), unknown/raising/false caveats are inert (c12_bad_caveats_inert), batch_check = map check "
+                "(c12_batch_eq_map, c12_batch_each), and the executable derivability spec the driver uses decides the inductive "
+                "Derivable (c12_spec_decides, c12_model_meets_spec).  The model is tied to rbacx/rebac/local.py on every run by an "
+                "exhaustive small-scope + random differential run with an injected clock; the spec predicate is evaluated in Lean on the "
+                "implementation's own answers (true => derivable; no limit hit => answer = derivable; batch = individual checks; every "
+                "call returns a bool and terminates).",
+        "design_ref": "DESIGN.md §5 C12",
+        "note": "Nothing partial in the Lean part: all listed theorems are proved without sorry, axioms within {propext, Classical.choice, "
+                "Quot.sound}.  Trusted: Lean kernel; the hand-written model and the reading of Python semantics in it, validated "
+                "differentially (not verified) against the code; the harness generators and the clock injection (module attribute / "
+                "import-time binding of time.perf_counter_ns).  Assumed: caveat predicates are pure functions of the context; ids, relations "
+                "and caveat names are str; limits are int.  'No limit hit' is judged by the model's run.  Termination of the Python loop "
+                "itself is covered by the model's well-founded recursion plus a hang guard in the differential run, not by a proof about "
+                "CPython.  A clock-independent sufficient condition for 'no node limit hit' (max_nodes >= number of distinct reachable nodes) "
+                "is not stated as a theorem.",
+        "technique": "Lean 4 proof over a hand-written model + differential correspondence check",
+    },
 }
 
 ALL = [f"C{i:02d}" for i in range(1, 21)]
